@@ -105,6 +105,7 @@ package journal
 //@ func (*Writer).Reset
 //@   props C12
 //@   requires wf(w)
+//@   ensures [writes-go-to-the-new-destination-from-a-clean-state] w.w == writer && w.i == 0 && w.j == 0 && w.written == 0 && w.blockNumber == 0 && !w.first && !w.pending && w.err == nil && w.seq == old(w.seq) + 1
 //@   at before call (*Writer).writePending#1
 //@     assert [pending-goes-to-the-old-writer] w.w == old(w.w) && w.f == old(w.f)
 //@   at return
